@@ -4,6 +4,7 @@ import (
 	"fmt"
 
 	"github.com/enbility/spine-go/model"
+	"github.com/enbility/spine-go/util"
 	"github.com/enbility/spine-go/verifrt"
 )
 
@@ -76,6 +77,7 @@ func vhC05(fixKind, fixState string) {
 	hdrSpec.Only = []string{"AddressSource", "AddressDestination", "MsgCounter", "MsgCounterReference", "CmdClassifier", "AckRequest"}
 	verifrt.Fill("header", &d.Header, hdrSpec)
 	nCmd := verifrt.Choice("cmds", 2)
+	var probeSrc *model.FeatureAddressType // the announced feature the datagram claims to come from
 	if kind == "header" {
 		kind = "resultData"
 	} else {
@@ -92,6 +94,7 @@ func vhC05(fixKind, fixState string) {
 			}
 		}
 		d.Header.AddressSource, d.Header.AddressDestination = src, dst
+		probeSrc = src
 		verifrt.Assume(verifrt.All(!verifrt.IsNil(d.Header.MsgCounter), !verifrt.IsNil(d.Header.CmdClassifier), !verifrt.IsNil(d.Header.MsgCounterReference)))
 		if verifrt.Param("allStates", 0) == 0 {
 			verifrt.Assume(verifrt.IsNil(d.Header.AckRequest)) // quick tier: acknowledgement not requested
@@ -170,6 +173,22 @@ func vhC05(fixKind, fixState string) {
 		m0 := len(ww.msgs)
 		vhDeliver(rr, model.DatagramType{Header: w.hdr(vhAddr(dev, []uint{0}, 0), nmL, model.CmdClassifierTypeRead, false), Payload: model.PayloadType{Cmd: []model.CmdType{{NodeManagementDetailedDiscoveryData: &model.NodeManagementDetailedDiscoveryDataType{}}}}})
 		verifrt.Assert("discovery-read-still-answered-afterwards", vhCount(ww, m0).replies == 1)
+	}
+	// ---- and valid data from the very feature the datagram came from is still taken in
+	if probeSrc != nil {
+		if rf := r.FeatureByAddress(probeSrc); rf != nil {
+			if rf.Type() == model.FeatureTypeTypeNodeManagement {
+				uc := &model.NodeManagementUseCaseDataType{UseCaseInformation: []model.UseCaseInformationDataType{{Actor: util.Ptr(model.UseCaseActorTypeEVSE)}}}
+				vhDeliver(r, model.DatagramType{Header: w.hdr(probeSrc, nmL, model.CmdClassifierTypeNotify, false), Payload: model.PayloadType{Cmd: []model.CmdType{{NodeManagementUseCaseData: uc}}}})
+				got, _ := rf.DataCopy(model.FunctionTypeNodeManagementUseCaseData).(*model.NodeManagementUseCaseDataType)
+				verifrt.Assert("valid-data-from-the-same-feature-still-taken-in", got != nil && len(got.UseCaseInformation) == 1)
+			} else if rf.Type() == model.FeatureTypeTypeLoadControl { // (a discovery datagram may have re-announced the feature with another type)
+				vhDeliver(r, model.DatagramType{Header: w.hdr(probeSrc, w.F3.Address(), model.CmdClassifierTypeNotify, false), Payload: model.PayloadType{Cmd: []model.CmdType{{LoadControlLimitListData: vhLimitList(7, true)}}}})
+				got, _ := rf.DataCopy(model.FunctionTypeLoadControlLimitListData).(*model.LoadControlLimitListDataType)
+				verifrt.Assert("valid-data-from-the-same-feature-still-taken-in", got != nil && len(got.LoadControlLimitData) == 1)
+			}
+			verifrt.Reach("probed-the-source-feature")
+		}
 	}
 	verifrt.Assert("no-thread-left-blocked", verifrt.BlockedThreads() == 0)
 }
